@@ -59,6 +59,9 @@ def branch_tables(rep, repo, lg, rid_prefix='C02'):
     tables = {}
     infos = {}
     for m, d in chains.items():
+        if not isinstance(getattr(d, 'ops_iter', d.loop.iter), ast.Subscript):
+            rep.rule(f'{rid_prefix}.columns', 'the dispatch loop visits every op once, in op-list order, with its first six columns (iterable evaluated)')
+            c01.iter_rule(rep, f'{rid_prefix}.columns', mod, cp, d, f'm=={m}')
         ok = resolve_locs(d)
         rep.ob(f'{rid_prefix}.rebind', f'm={m}', ok)
         if not ok:
